@@ -245,6 +245,10 @@ func (cv *conv) genCall(focusBias int) authsim.CallSpec {
 	// now and then the caller has already given up when the call starts: the body is still the
 	// transport's to close
 	spec.PreCancelled = rng.IntN(12) == 0
+	if rng.IntN(15) == 0 {
+		spec.OwnAuthorization = true
+		cv.run.Count("calls_with_own_authorization_header", 1)
+	}
 	if cv.nHosts > 1 && rng.IntN(10) == 0 {
 		// the Host header names another registry of this conversation (one with credentials of its own)
 		spec.HostHeader = hosts[(hi+1+rng.IntN(cv.nHosts-1))%cv.nHosts]
